@@ -68,8 +68,10 @@ fn reference(comb: StandardCombiner, m: &[Vec<f32>], r: usize, c: usize) -> f64 
 
 fn close(x: f32, want: f64) -> bool {
     if want.is_infinite() {
-        // infinite similarities are legal values of a user-supplied function: maxima, sums and means of IEEE values
-        return x as f64 == want;
+        // infinite similarities are legal values of a user-supplied function, but the statement does not say what
+        // the combination of non-finite entries is: the IEEE value of the documented formula, or NaN (a running or
+        // compensated mean meets inf - inf as soon as two maxima are infinite). A finite result is wrong in any reading
+        return x as f64 == want || x.is_nan();
     }
     x.is_finite() && (x as f64 - want).abs() <= 1e-6 + 1e-6 * want.abs()
 }
@@ -83,6 +85,12 @@ fn set<'a>(ont: &'a Ontology, ids: &[u32]) -> HpoSet<'a> {
 }
 
 type V = Option<(String, String, String)>;
+
+thread_local! {
+    /// evidence only: comparisons with the second set on a twin instance in which the user function was handed a
+    /// term of the first instance as its second argument (the statement fixes the value, not whose handle is passed)
+    static TWIN_TERM_FROM_OTHER_INSTANCE: std::cell::Cell<u64> = std::cell::Cell::new(0);
+}
 
 // (check_matrix below: all checks for one matrix under one id assignment)
 thread_local! {
@@ -128,17 +136,20 @@ fn check_matrix(ont: &Ontology, m: &[Vec<f32>], r: usize, c: usize, a_ids: &[u32
         if !close(s1, want) {
             return v("HpoSet::similarity", "result is not the documented combination of the pairwise matrix", format!("{comb:?} matrix {m:?}: observed {s1} expected {want}"));
         }
-        // the user function is asked for (a in A, b in B), each pair once
-        // the user function is asked for exactly the pairs (a in A, b in B), in that argument order (how often a
-        // pair is evaluated is not fixed by the property)
-        let mut want_calls: Vec<(u32, u32)> = a_ids.iter().flat_map(|x| b_ids.iter().map(move |y| (*x, *y))).collect();
-        let mut got_calls = calls.clone();
-        want_calls.sort_unstable();
-        want_calls.dedup();
-        got_calls.sort_unstable();
-        got_calls.dedup();
-        if got_calls != want_calls {
-            return v("GroupSimilarity::calculate", "term similarity is not evaluated for exactly the pairs (a in A, b in B) in that argument order", format!("calls {calls:?}"));
+        // the user function is asked for every pair (a in A, b in B), in that argument order: an arbitrary function
+        // cannot be combined without asking. How often a pair is evaluated, and whether further questions are asked
+        // (a symmetry probe, the diagonal), is not fixed by the property - every undefined entry of the table is
+        // NaN, so a wrong pair that is USED shows in the value
+        let want_calls: std::collections::BTreeSet<(u32, u32)> = a_ids.iter().flat_map(|x| b_ids.iter().map(move |y| (*x, *y))).collect();
+        let got_calls: std::collections::BTreeSet<(u32, u32)> = calls.iter().copied().collect();
+        if !want_calls.is_subset(&got_calls) {
+            return v("GroupSimilarity::calculate", "term similarity is not evaluated for every pair (a in A, b in B) in that argument order", format!("calls {calls:?}"));
+        }
+        // 2. GroupSimilarity::calculate: the same documented value (each entry point's value is fixed, not that the
+        // two share one order of evaluation - they are compared up to rounding, not bit for bit)
+        let s2 = GroupSimilarity::new(comb, table.clone()).calculate(&a, &b);
+        if !close(s2, want) {
+            return v("GroupSimilarity::calculate", "result is not the documented combination of the pairwise matrix", format!("{comb:?} matrix {m:?}: observed {s2} expected {want}"));
         }
         // 1b. the second set living on another Ontology instance with the same content (another release of the same terms: same ids, other names): the combination is defined on the terms, not on the instance
         // (an implementation that refuses sets of two instances by panicking is tolerated; a silently different value is not)
@@ -150,27 +161,19 @@ fn check_matrix(ont: &Ontology, m: &[Vec<f32>], r: usize, c: usize, a_ids: &[u32
             let b2 = set(tw, b_ids);
             table.owners.borrow_mut().clear();
             let s1b = a.similarity(&b2, table.clone(), comb);
-            // the term similarity must be handed the terms of the two sets themselves: the second argument is
-            // the twin's term (its data - here its name - may differ from the first instance's term of that id)
+            // whose handle the user function receives for a term of the second set (the twin's, or the term of that id
+            // re-resolved in the first instance) is not fixed by the statement - every id-keyed similarity gives the
+            // same matrix either way; it is counted as evidence, the value carries the demand
             if table.owners.borrow().iter().any(|o| *o != (false, true)) {
-                return v("HpoSet::similarity", "the term similarity is not called with the terms of the two sets (a term was looked up in the other set's ontology)", format!("{comb:?} matrix {m:?}"));
+                TWIN_TERM_FROM_OTHER_INSTANCE.with(|c| c.set(c.get() + 1));
             }
             if s1b.to_bits() != s1.to_bits() {
                 return v("HpoSet::similarity", "result differs when the second set belongs to another Ontology instance with the same content", format!("{comb:?} matrix {m:?}: {s1b} vs {s1}"));
             }
-            table.owners.borrow_mut().clear();
             let s2b = GroupSimilarity::new(comb, table.clone()).calculate(&a, &b2);
-            if table.owners.borrow().iter().any(|o| *o != (false, true)) {
-                return v("GroupSimilarity::calculate", "the term similarity is not called with the terms of the two sets (a term was looked up in the other set's ontology)", format!("{comb:?} matrix {m:?}"));
+            if s2b.to_bits() != s2.to_bits() {
+                return v("GroupSimilarity::calculate", "result differs when the second set belongs to another Ontology instance with the same content", format!("{comb:?} matrix {m:?}: {s2b} vs {s2}"));
             }
-            if s2b.to_bits() != s1.to_bits() {
-                return v("GroupSimilarity::calculate", "result differs when the second set belongs to another Ontology instance with the same content", format!("{comb:?} matrix {m:?}: {s2b} vs {s1}"));
-            }
-        }
-        // 2. GroupSimilarity::calculate
-        let s2 = GroupSimilarity::new(comb, table.clone()).calculate(&a, &b);
-        if s2.to_bits() != s1.to_bits() {
-            return v("GroupSimilarity::calculate", "differs from HpoSet::similarity", format!("{comb:?} matrix {m:?}: {s2} vs {s1}"));
         }
         // 3. SimilarityCombiner::calculate on the Matrix
         let s3 = comb.calculate(&Matrix::new(r, c, &data));
@@ -200,9 +203,48 @@ fn check_matrix(ont: &Ontology, m: &[Vec<f32>], r: usize, c: usize, a_ids: &[u32
         if c2.to_bits() != plain_ba.to_bits() {
             return v("CachedSimilarity", "caching adaptor changes the result when the arguments are swapped on a warm cache", format!("{comb:?} matrix {m:?}: (B,A) plain {plain_ba}, cached {c2}"));
         }
+        // (the completed table agrees with the original one on every pair (a in A, b in B), so the plain result of
+        // the same entry point is s1)
         let s_cached = a.similarity(&b, CachedSimilarity::new(full.clone()), comb);
-        if s_cached.to_bits() != plain_ab.to_bits() {
-            return v("CachedSimilarity", "caching adaptor changes the result", format!("{comb:?} matrix {m:?}: HpoSet::similarity plain {plain_ab} cached {s_cached}"));
+        if s_cached.to_bits() != s1.to_bits() && !(s_cached.is_nan() && s1.is_nan()) {
+            return v("CachedSimilarity", "caching adaptor changes the result", format!("{comb:?} matrix {m:?}: HpoSet::similarity plain {s1} cached {s_cached}"));
+        }
+        // 4b. the documented use of the adaptor: ONE cache, one set against SEVERAL partner sets. C = B with its
+        // last member replaced by a term that occurs in neither set (same size, all keys but one column shared,
+        // T(a, new) != T(a, replaced)) - or, when the two sets use all eight terms, B without its last member -
+        // then B again.
+        // (the cache does not depend on the combiner: one of the three per matrix, in rotation)
+        if c > 0 && r > 0 && comb == COMBINERS[(r + 2 * c + data.iter().filter(|x| **x == data[0]).count()) % 3] {
+            let mut partners: Vec<(Vec<u32>, &str)> = vec![];
+            if let Some(fresh) = table.ids.iter().rev().copied().find(|x| !a_ids.contains(x) && !b_ids.contains(x)) {
+                let u = slot(&table.ids, fresh);
+                for i in 0..r {
+                    let x = slot(&table.ids, a_ids[i]);
+                    // a value the replaced column does not hold in this row
+                    full.grid[x][u] = if m[i][c - 1] == 0.75 { 0.375 } else { 0.75 };
+                    full.grid[u][x] = 0.0625;
+                }
+                let mut cset: Vec<u32> = b_ids[..c - 1].to_vec();
+                cset.push(fresh);
+                cset.sort_unstable();
+                partners.push((cset, "B with its last member replaced by another term"));
+            } else {
+                partners.push((b_ids[..c - 1].to_vec(), "B without its last member"));
+            }
+            partners.push((b_ids.to_vec(), "B again"));
+            let cached = GroupSimilarity::new(comb, CachedSimilarity::new(full.clone()));
+            let first = cached.calculate(&a, &b);
+            if first.to_bits() != plain_ab.to_bits() {
+                return v("CachedSimilarity", "caching adaptor changes the result", format!("{comb:?} matrix {m:?}: (A,B) plain {plain_ab}, cached {first}"));
+            }
+            for (p_ids, pname) in &partners {
+                let pset = set(ont, p_ids);
+                let plain = GroupSimilarity::new(comb, full.clone()).calculate(&a, &pset);
+                let got = cached.calculate(&a, &pset);
+                if got.to_bits() != plain.to_bits() && !(got.is_nan() && plain.is_nan()) {
+                    return v("CachedSimilarity", "caching adaptor changes the result when one cache serves several partner sets", format!("{comb:?} matrix {m:?}: after (A,B) on the same cache, (A, {pname} = {p_ids:?}): plain {plain}, cached {got}"));
+                }
+            }
         }
         // 5. symmetric term similarity => argument order does not matter (only meaningful if A and B do not overlap in a conflicting way)
         let mut sym = Table::new();
@@ -240,10 +282,14 @@ fn nontrivial(m: &[Vec<f32>], r: usize, c: usize) -> bool {
 
 pub fn run(ctx: &mut Ctx) {
     let thorough = ctx.tier.thorough();
-    ctx.rule = "case = block of consecutive r x c matrices (row-major base-|alphabet| counting) over the alphabet; each matrix is checked under three id assignments (A below B, interleaved, A above B; square matrices additionally A = B) x 3 combiners x {HpoSet::similarity, GroupSimilarity, SimilarityCombiner on Matrix, cached, cache reused for (A,B),(B,A),(A,B), symmetric table}; distinct by construction; non-trivial = not all entries equal".into();
+    ctx.rule = "case = block of consecutive r x c matrices (row-major base-|alphabet| counting) over the alphabet; each matrix is checked under three id assignments (A below B, interleaved, A above B; square matrices additionally A = B) x 3 combiners x {HpoSet::similarity, GroupSimilarity, SimilarityCombiner on Matrix, cached, cache reused for (A,B),(B,A),(A,B) and (one combiner per matrix) for A against B, a second partner set and B again, symmetric table}; distinct by construction; non-trivial = not all entries equal".into();
     ctx.assumptions = vec![
         "entries are dyadic rationals so the reference is exact up to the final division; results compared with 1e-6".into(),
         "negative similarities are legal values of a user-supplied term similarity".into(),
+        "the entry points are compared with the documented value up to rounding, not with each other bit for bit; bit-identity is demanded only between a plain and a cached evaluation through the same entry point".into(),
+        "the user function must be asked for every pair (a in A, b in B); further questions and repeated questions are not excluded".into(),
+        "non-finite entries: the statement is silent - the IEEE value of the formula or NaN is accepted, a finite result is not".into(),
+        "which names StandardCombiner::try_from accepts beyond the three lower-case ones is not stated (counted as evidence)".into(),
         "two sets that live on two Ontology instances with the same content are an ordinary pair of term sets (the API accepts them and compares terms by id)".into(),
         "sizes: the crate documents a panic ('Matrix too large') above 65 535 rows or columns; sets stay at or below that".into(),
     ];
@@ -332,43 +378,48 @@ pub fn run(ctx: &mut Ctx) {
     // {1/4, 1, +inf} and over {1/4, -1/2, -inf} (the two signs are not mixed: inf - inf has no value)
     // ... and scores above 1 (a user-supplied similarity is not bounded by 1: counts, log-odds, information
     // content): all matrices up to 3x3 over {1/2, 1, 2} - a scan for a maximum may not stop at the first 1
-    for (tag, alphabet) in [("plus-infinity", [0.25f32, 1.0, f32::INFINITY]), ("minus-infinity", [0.25f32, -0.5, f32::NEG_INFINITY]), ("above-one", [1.0f32, 2.0, 0.5])] {
-        let max_shape = if tag == "above-one" { 3usize } else { 2 };
+    // ... and values with a full mantissa (1/3, 0.7, 0.95): everything else here is dyadic with <= 13 significant
+    // bits, which a matrix stored in half precision or maxima accumulated in fixed point would carry unharmed
+    for (tag, alphabet) in [("plus-infinity", [0.25f32, 1.0, f32::INFINITY]), ("minus-infinity", [0.25f32, -0.5, f32::NEG_INFINITY]), ("above-one", [1.0f32, 2.0, 0.5]), ("non-dyadic", [1.0f32 / 3.0, 0.7, 0.95])] {
+        let max_shape = if tag == "above-one" || tag == "non-dyadic" { 3usize } else { 2 };
         for r in 1..=max_shape {
             for c in 1..=max_shape {
                 let cells = r * c;
                 let total: u64 = 3u64.pow(cells as u32);
                 ctx.space(&format!("matrices/{tag}/{r}x{c}"), &format!("all {total} matrices of shape {r}x{c} over {alphabet:?}; id assignments as above"));
-                if !ctx.take() {
-                    continue;
-                }
-                for idx in 0..total {
-                    ctx.state();
-                    let mut k = idx;
-                    let mut m = vec![vec![0f32; c]; r];
-                    for i in 0..r {
-                        for j in 0..c {
-                            m[i][j] = alphabet[(k % 3) as usize];
-                            k /= 3;
+                // (case = block of 1024 consecutive matrices)
+                for start in (0..total).step_by(1024) {
+                    if !ctx.take() {
+                        continue;
+                    }
+                    for idx in start..(start + 1024).min(total) {
+                        ctx.state();
+                        let mut k = idx;
+                        let mut m = vec![vec![0f32; c]; r];
+                        for i in 0..r {
+                            for j in 0..c {
+                                m[i][j] = alphabet[(k % 3) as usize];
+                                k /= 3;
+                            }
+                        }
+                        if tag == "non-dyadic" || m.iter().flatten().any(|v| v.is_infinite() || *v > 1.0) {
+                            ctx.nontrivial();
+                        }
+                        let lo: Vec<u32> = ids[..r].to_vec();
+                        let hi: Vec<u32> = ids[4..4 + c].to_vec();
+                        for (a_ids, b_ids, what) in [(lo.clone(), hi.clone(), "scores beyond [0, 1]: A below B"), (ids[4..4 + r].to_vec(), ids[..c].to_vec(), "scores beyond [0, 1]: A above B")] {
+                            ctx.exec();
+                            ctx.validated();
+                            ctx.transitions(27);
+                            match guard(|| check_matrix(&ont, &m, r, c, &a_ids, &b_ids, what)) {
+                                Ok(None) => {}
+                                Ok(Some((site, sig, det))) => ctx.violation(&site, &sig, json!({"rows": r, "cols": c, "matrix": format!("{m:?}"), "A": a_ids, "B": b_ids, "difference": det})),
+                                Err(p) => ctx.violation("HpoSet::similarity", "panics", json!({"rows": r, "cols": c, "matrix": format!("{m:?}"), "A": a_ids, "B": b_ids, "observed": p})),
+                            }
                         }
                     }
-                    if m.iter().flatten().any(|v| v.is_infinite() || *v > 1.0) {
-                        ctx.nontrivial();
-                    }
-                    let lo: Vec<u32> = ids[..r].to_vec();
-                    let hi: Vec<u32> = ids[4..4 + c].to_vec();
-                    for (a_ids, b_ids, what) in [(lo.clone(), hi.clone(), "scores beyond [0, 1]: A below B"), (ids[4..4 + r].to_vec(), ids[..c].to_vec(), "scores beyond [0, 1]: A above B")] {
-                        ctx.exec();
-                        ctx.validated();
-                        ctx.transitions(27);
-                        match guard(|| check_matrix(&ont, &m, r, c, &a_ids, &b_ids, what)) {
-                            Ok(None) => {}
-                            Ok(Some((site, sig, det))) => ctx.violation(&site, &sig, json!({"rows": r, "cols": c, "matrix": format!("{m:?}"), "A": a_ids, "B": b_ids, "difference": det})),
-                            Err(p) => ctx.violation("HpoSet::similarity", "panics", json!({"rows": r, "cols": c, "matrix": format!("{m:?}"), "A": a_ids, "B": b_ids, "observed": p})),
-                        }
-                    }
+                    ctx.sample(|| json!({"shape": [r, c], "alphabet": format!("{alphabet:?}"), "matrices": total, "block_start": start}));
                 }
-                ctx.sample(|| json!({"shape": [r, c], "alphabet": format!("{alphabet:?}"), "matrices": total}));
             }
         }
     }
@@ -519,18 +570,24 @@ pub fn run(ctx: &mut Ctx) {
     }
     // ---- combiner selection by name
     {
-        ctx.space("names/StandardCombiner::try_from", "the three documented names x {lower, UPPER, Mixed}: the named combiner (value on a 1x2 and a 2x1 matrix that separates the three); 6 other strings are refused; the default is funSimAvg");
+        ctx.space("names/StandardCombiner::try_from", "the three names funsimavg, funsimmax, bma in lower case: the named combiner (value on a 1x2 and a 2x1 matrix that separates the three); the default is funSimAvg; other spellings (UPPER, Mixed) and 6 other strings are only counted as evidence - which further names are accepted is stated nowhere");
         if ctx.take() {
             ctx.state();
             ctx.exec();
             ctx.validated();
+            let (mut other_spelling_refused, mut other_name_accepted) = (0u64, 0u64);
             let res = guard(|| -> V {
                 let data = [0.25f32, 1.0];
                 for (name, comb) in [("funsimavg", StandardCombiner::FunSimAvg), ("funsimmax", StandardCombiner::FunSimMax), ("bma", StandardCombiner::Bma)] {
                     let mixed: String = name.chars().enumerate().map(|(i, c)| if i % 2 == 0 { c.to_ascii_uppercase() } else { c }).collect();
                     for spelled in [name.to_string(), name.to_uppercase(), mixed] {
                         let Ok(got) = StandardCombiner::try_from(spelled.as_str()) else {
-                            return Some(("StandardCombiner::try_from".into(), "refuses a documented name".into(), format!("{spelled:?}")));
+                            if spelled == name {
+                                return Some(("StandardCombiner::try_from".into(), "refuses the name of a combiner".into(), format!("{spelled:?}")));
+                            }
+                            // whether the parser ignores case is not stated
+                            other_spelling_refused += 1;
+                            continue;
                         };
                         for (r, c) in [(1usize, 2usize), (2, 1)] {
                             let (x, y) = (got.calculate(&Matrix::new(r, c, &data)), comb.calculate(&Matrix::new(r, c, &data)));
@@ -540,9 +597,10 @@ pub fn run(ctx: &mut Ctx) {
                         }
                     }
                 }
-                for bad in ["", "funsim", "funsimavg ", "max", "bma2", "average"] {
-                    if StandardCombiner::try_from(bad).is_ok() {
-                        return Some(("StandardCombiner::try_from".into(), "accepts a name that is not documented".into(), format!("{bad:?}")));
+                // aliases ("max", "average"), trimmed input and the like are a maintainer's choice
+                for other in ["", "funsim", "funsimavg ", "max", "bma2", "average"] {
+                    if StandardCombiner::try_from(other).is_ok() {
+                        other_name_accepted += 1;
                     }
                 }
                 let d = StandardCombiner::default().calculate(&Matrix::new(1, 2, &data));
@@ -556,13 +614,15 @@ pub fn run(ctx: &mut Ctx) {
                 Ok(Some((site, sig, det))) => ctx.violation(&site, &sig, json!({"difference": det})),
                 Err(p) => ctx.violation("StandardCombiner::try_from", "panics", json!({"observed": p})),
             }
+            ctx.bump("try_from_other_spelling_refused", other_spelling_refused);
+            ctx.bump("try_from_other_name_accepted", other_name_accepted);
         }
     }
     // ---- medium sizes (between the exhaustive 4x4 and the size border) with informative values, a cache that
     // has to hold thousands of pairs, and a user-supplied combiner that sees the matrix itself
     {
         let dims: Vec<(usize, usize)> = vec![(4, 5), (5, 9), (7, 8), (8, 8), (9, 16), (15, 17), (16, 33), (31, 32), (33, 17), (64, 65), (100, 100), (65, 3), (3, 65)];
-        ctx.space("matrices/medium-sizes", &format!("shapes {dims:?} on a flat ontology with 210 terms: value 2^-(1 + (5i + 3j) mod 13) and a permutation-peak variant (one 1.0 per row); 3 combiners through HpoSet::similarity / GroupSimilarity / the Matrix, cached == plain for (A,B), (B,A), (A,B) on ONE cache, and a user combiner must receive the |A| x |B| matrix of exactly these values"));
+        ctx.space("matrices/medium-sizes", &format!("shapes {dims:?} on a flat ontology with 210 terms: value 2^-(1 + (5i + 3j) mod 13) and a permutation-peak variant (one 1.0 per row); 3 combiners through HpoSet::similarity / GroupSimilarity / the Matrix, cached == plain for (A,B), (B,A), (A,B) on ONE cache, and one cache serving A against four partner sets (B, B shifted by one id, B without its first member, B again), and a user combiner must receive the |A| x |B| matrix of exactly these values through rows() and, transposed, through cols()"));
         let mut med: Option<Ontology> = None;
         #[derive(Clone)]
         struct Grid {
@@ -601,12 +661,14 @@ pub fn run(ctx: &mut Ctx) {
             }
         }
         struct Probe {
-            seen: Rc<RefCell<Option<((usize, usize), Vec<Vec<f32>>)>>>,
+            #[allow(clippy::type_complexity)]
+            seen: Rc<RefCell<Option<((usize, usize), Vec<Vec<f32>>, Vec<Vec<f32>>, usize)>>>,
         }
         impl SimilarityCombiner for Probe {
             fn combine(&self, m: &Matrix<f32>) -> f32 {
                 let rows: Vec<Vec<f32>> = m.rows().map(|r| r.copied().collect()).collect();
-                *self.seen.borrow_mut() = Some((m.dim(), rows));
+                let cols: Vec<Vec<f32>> = m.cols().map(|c| c.copied().collect()).collect();
+                *self.seen.borrow_mut() = Some((m.dim(), rows, cols, m.len()));
                 0.5
             }
         }
@@ -650,8 +712,8 @@ pub fn run(ctx: &mut Ctx) {
                             return Some(("HpoSet::similarity".into(), "result is not the documented combination of the pairwise matrix".into(), format!("{comb:?} {r}x{c}: observed {s1} expected {want}")));
                         }
                         let s2 = GroupSimilarity::new(comb, grid.clone()).calculate(&a, &b);
-                        if s2.to_bits() != s1.to_bits() {
-                            return Some(("GroupSimilarity::calculate".into(), "differs from HpoSet::similarity".into(), format!("{comb:?} {r}x{c}: {s2} vs {s1}")));
+                        if !close(s2, want) {
+                            return Some(("GroupSimilarity::calculate".into(), "result is not the documented combination of the pairwise matrix".into(), format!("{comb:?} {r}x{c}: observed {s2} expected {want}")));
                         }
                         let s3 = comb.calculate(&Matrix::new(r, c, &data));
                         if !close(s3, want) {
@@ -667,6 +729,19 @@ pub fn run(ctx: &mut Ctx) {
                         if c1.to_bits() != s2.to_bits() || c3.to_bits() != s2.to_bits() || c2.to_bits() != st.to_bits() {
                             return Some(("CachedSimilarity".into(), "caching adaptor changes the result".into(), format!("{comb:?} {r}x{c}: plain (A,B) {s2}, (B,A) {st}; one cache: {c1}, {c2}, {c3}")));
                         }
+                        // one cache, A against several partner sets: B, B shifted by one id (all keys but one column
+                        // shared, every shared key at another column position), B without its first member, B again
+                        let wide = Grid { cols: c + 1, ..grid.clone() };
+                        let cached = GroupSimilarity::new(comb, CachedSimilarity::new(wide.clone()));
+                        let shifted: Vec<u32> = b_ids.iter().map(|x| x + 1).collect();
+                        for (p_ids, pname) in [(&b_ids[..], "B"), (&shifted[..], "B shifted by one id"), (&b_ids[1..], "B without its first member"), (&b_ids[..], "B again")] {
+                            let pset = set(om, p_ids);
+                            let plain = GroupSimilarity::new(comb, wide.clone()).calculate(&a, &pset);
+                            let got = cached.calculate(&a, &pset);
+                            if got.to_bits() != plain.to_bits() {
+                                return Some(("CachedSimilarity".into(), "caching adaptor changes the result when one cache serves several partner sets".into(), format!("{comb:?} {r}x{c}: (A, {pname}): plain {plain}, cached {got}")));
+                            }
+                        }
                     }
                     // a user-supplied combiner receives the |A| x |B| matrix, row i = member i of A
                     // (either orientation is accepted: the documented combinations do not depend on it)
@@ -676,9 +751,11 @@ pub fn run(ctx: &mut Ctx) {
                     let got = seen.borrow().clone();
                     match got {
                         None => return Some(("GroupSimilarity::calculate".into(), "a user-supplied combiner is not asked".into(), format!("{r}x{c}"))),
-                        Some((dim, rows)) => {
+                        Some((dim, rows, cols, len)) => {
                             let transposed: Vec<Vec<f32>> = (0..c).map(|j| (0..r).map(|i| m[i][j]).collect()).collect();
-                            let ok = (dim == (r, c) && rows == m) || (dim == (c, r) && rows == transposed);
+                            // what the matrix hands a user combiner through cols() must be the transpose of what it
+                            // hands out through rows() (the standard combiners need not use cols() themselves)
+                            let ok = ((dim == (r, c) && rows == m && cols == transposed) || (dim == (c, r) && rows == transposed && cols == m)) && len == r * c;
                             if !ok || out != 0.5 {
                                 return Some(("GroupSimilarity::calculate".into(), "a user-supplied combiner does not receive the matrix of the pairwise similarities (or its result is not returned)".into(), format!("{r}x{c}: combiner saw dim {dim:?}, first row {:?}; returned {out}", rows.first())));
                             }
@@ -704,7 +781,7 @@ pub fn run(ctx: &mut Ctx) {
         TWIN.with(|t| *t.borrow_mut() = None);
         let f4 = setroutes::facts();
         let depth = if thorough { 3 } else { 2 };
-        ctx.space("sets/construction-routes", &format!("{}; every sequence of <= {depth} operations; after every operation the set is compared (3 combiners, asymmetric by-id similarity) as A against a fixed set, as B, and with itself: the value must be the documented combination over the terms iter() hands out, and the similarity must be asked for exactly those pairs", setroutes::DESCRIPTION));
+        ctx.space("sets/construction-routes", &format!("{}; every sequence of <= {depth} operations; after every operation the set is compared (3 combiners, asymmetric by-id similarity) as A against a fixed set, as B, and with itself: the value must be the documented combination over the terms iter() hands out, and the similarity must be asked for every one of those pairs", setroutes::DESCRIPTION));
         match drive::from_bytes(&crate::encode::encode(&f4, &crate::encode::EncOpts::v(3))) {
             Ok(Ok(ont4)) => {
                 #[derive(Clone)]
@@ -736,17 +813,14 @@ pub fn run(ctx: &mut Ctx) {
                         let sim = ById { calls: Rc::new(RefCell::new(vec![])) };
                         let got = a.similarity(b, sim.clone(), comb);
                         let got2 = GroupSimilarity::new(comb, sim.clone()).calculate(a, b);
-                        if !close(got, want) || got2.to_bits() != got.to_bits() {
+                        if !close(got, want) || !close(got2, want) {
                             return Some(("HpoSet::similarity".into(), "result is not the documented combination of the pairwise matrix of the sets' terms".into(), format!("{comb:?}: A = {ia:?}, B = {ib:?}: HpoSet::similarity {got}, GroupSimilarity::calculate {got2}, expected {want}")));
                         }
-                        let mut calls = sim.calls.borrow().clone();
-                        calls.sort_unstable();
-                        calls.dedup();
-                        let mut want_calls: Vec<(u32, u32)> = ia.iter().flat_map(|x| ib.iter().map(move |y| (*x, *y))).collect();
-                        want_calls.sort_unstable();
-                        want_calls.dedup();
-                        if calls != want_calls {
-                            return Some(("GroupSimilarity::calculate".into(), "term similarity is not evaluated for exactly the pairs (a in A, b in B) of the sets' terms".into(), format!("A = {ia:?}, B = {ib:?}: calls {calls:?}")));
+                        // (further questions are not excluded by the property; a wrong pair that is used shows in the value)
+                        let calls: std::collections::BTreeSet<(u32, u32)> = sim.calls.borrow().iter().copied().collect();
+                        let want_calls: std::collections::BTreeSet<(u32, u32)> = ia.iter().flat_map(|x| ib.iter().map(move |y| (*x, *y))).collect();
+                        if !want_calls.is_subset(&calls) {
+                            return Some(("GroupSimilarity::calculate".into(), "term similarity is not evaluated for every pair (a in A, b in B) of the sets' terms".into(), format!("A = {ia:?}, B = {ib:?}: calls {calls:?}")));
                         }
                     }
                     None
@@ -821,15 +895,38 @@ pub fn run(ctx: &mut Ctx) {
     // documented combinations for |A| up to 65 535 with |B| in {1, 2, 4} and the transposed shapes
     {
         TWIN.with(|t| *t.borrow_mut() = None);
-        ctx.space("sizes/u16-border", "flat ontology with 65 540 terms; (|A|, |B|) in {(65535,1), (65534,2), (65533,4), (65535,4), (300,300), (2,6000)} and, thorough tier, (1,65535), (4,65533) x 3 combiners; similarity = a dyadic function of the two ids (sums stay exact in f32); HpoSet::similarity, GroupSimilarity::calculate and SimilarityCombiner::calculate on the Matrix against the f64 reference");
+        ctx.space("sizes/u16-border", "flat ontology with 65 540 terms; (|A|, |B|) in {(65535,1), (65534,2), (65533,4), (65535,4), (300,300), (2,6000)} and, thorough tier, (1,65535), (4,65533) x 3 combiners; similarity = a dyadic function of the two ids (sums stay exact in f32; for (300,300) one whose row and column maxima vary); HpoSet::similarity, GroupSimilarity::calculate and SimilarityCombiner::calculate on the Matrix against the f64 reference; for (300,300) also one cache serving (A,B), (B,A), (A,B) (90 000 + 90 000 entries); a 1 x 32 769 matrix (thorough: also 2 x 40 000) handed to funSimAvg and BMA (thorough: all three) directly (more columns than a 15-bit index holds; sets of that width are thorough-only because the library's column scan is quadratic)");
         // many columns are slow in the library (column maxima cost O(cols^2)): the transposed border shapes are thorough-only
         let shapes: Vec<(usize, usize)> = if thorough { vec![(65_535, 1), (65_534, 2), (65_533, 4), (65_535, 4), (1, 65_535), (4, 65_533), (300, 300)] } else { vec![(65_535, 1), (65_534, 2), (65_533, 4), (65_535, 4), (2, 6000), (300, 300)] };
         let mut big: Option<Ontology> = None;
-        struct ById;
+        #[derive(Clone, Copy)]
+        struct ById {
+            ramp: bool,
+        }
         impl Similarity for ById {
             fn calculate(&self, a: &HpoTerm, b: &HpoTerm) -> f32 {
                 use hpo::annotations::AnnotationId;
-                by_id(a.id().as_u32(), b.id().as_u32())
+                val(self.ramp, a.id().as_u32(), b.id().as_u32())
+            }
+        }
+        fn val(ramp: bool, a: u32, b: u32) -> f32 {
+            if ramp {
+                // for shapes with more than 61 rows AND columns (where every maximum of by_id is 1.0): row a has its
+                // maximum 2^-(1 + a mod 7), the column maxima vary as well, and T(a, b) != T(b, a)
+                let e = (a % 7).max(((a as u64 * 31 + b as u64 * 17) % 293) as u32 / 20);
+                (0.5f32).powi(1 + e as i32)
+            } else {
+                by_id(a, b)
+            }
+        }
+        /// the documented combination with every maximum divided before it is summed, in f32
+        fn divide_first(comb: StandardCombiner, row_max: &[f64], col_max: &[f64]) -> f32 {
+            let (r, c) = (row_max.len() as f32, col_max.len() as f32);
+            let part = |v: &[f64], d: f32| v.iter().fold(0f32, |acc, x| acc + *x as f32 / d);
+            match comb {
+                StandardCombiner::FunSimAvg => (part(row_max, r) + part(col_max, c)) / 2.0,
+                StandardCombiner::FunSimMax => part(row_max, r).max(part(col_max, c)),
+                StandardCombiner::Bma => part(row_max, r + c) + part(col_max, r + c),
             }
         }
         fn by_id(a: u32, b: u32) -> f32 {
@@ -862,27 +959,43 @@ pub fn run(ctx: &mut Ctx) {
             let res = guard(|| -> V {
                 let a = set(ontb, &a_ids);
                 let b = set(ontb, &b_ids);
-                let row_max: Vec<f64> = a_ids.iter().map(|x| b_ids.iter().map(|y| by_id(*x, *y) as f64).fold(f64::NEG_INFINITY, f64::max)).collect();
-                let col_max: Vec<f64> = b_ids.iter().map(|y| a_ids.iter().map(|x| by_id(*x, *y) as f64).fold(f64::NEG_INFINITY, f64::max)).collect();
+                let ramp = r > 61 && c > 61;
+                let sim = ById { ramp };
+                let row_max: Vec<f64> = a_ids.iter().map(|x| b_ids.iter().map(|y| val(ramp, *x, *y) as f64).fold(f64::NEG_INFINITY, f64::max)).collect();
+                let col_max: Vec<f64> = b_ids.iter().map(|y| a_ids.iter().map(|x| val(ramp, *x, *y) as f64).fold(f64::NEG_INFINITY, f64::max)).collect();
                 let (sr, sc): (f64, f64) = (row_max.iter().sum(), col_max.iter().sum());
-                let data: Vec<f32> = a_ids.iter().flat_map(|x| b_ids.iter().map(move |y| by_id(*x, *y))).collect();
+                let data: Vec<f32> = a_ids.iter().flat_map(|x| b_ids.iter().map(move |y| val(ramp, *x, *y))).collect();
                 for comb in COMBINERS {
                     let want = match comb {
                         StandardCombiner::FunSimAvg => (sr / r as f64 + sc / c as f64) / 2.0,
                         StandardCombiner::FunSimMax => (sr / r as f64).max(sc / c as f64),
                         StandardCombiner::Bma => (sr + sc) / (r + c) as f64,
                     };
-                    let s1 = a.similarity(&b, ById, comb);
-                    if !(s1.is_finite() && (s1 as f64 - want).abs() <= 1e-5 * want.abs().max(1e-3)) {
+                    // 1e-5 separates a divisor that is off by one at 65 535. An evaluation that divides every maximum
+                    // before summing (in f32) is the same formula but accumulates up to n * 6e-8: it is accepted when the
+                    // result lies within 4 ulp of that order of evaluation carried out here
+                    let alt = divide_first(comb, &row_max, &col_max);
+                    let ok = |x: f32| x.is_finite() && ((x as f64 - want).abs() <= 1e-5 * want.abs().max(1e-3) || (x - alt).abs() <= 4.0 * f32::EPSILON * alt.abs());
+                    let s1 = a.similarity(&b, sim, comb);
+                    if !ok(s1) {
                         return Some(("HpoSet::similarity".into(), "result is not the documented combination of the pairwise matrix".into(), format!("{comb:?} |A| = {r}, |B| = {c}: observed {s1} expected {want}")));
                     }
-                    let s2 = GroupSimilarity::new(comb, ById).calculate(&a, &b);
-                    if s2.to_bits() != s1.to_bits() {
-                        return Some(("GroupSimilarity::calculate".into(), "differs from HpoSet::similarity".into(), format!("{comb:?} |A| = {r}, |B| = {c}: {s2} vs {s1}")));
+                    let s2 = GroupSimilarity::new(comb, sim).calculate(&a, &b);
+                    if !ok(s2) {
+                        return Some(("GroupSimilarity::calculate".into(), "result is not the documented combination of the pairwise matrix".into(), format!("{comb:?} |A| = {r}, |B| = {c}: observed {s2} expected {want}")));
                     }
                     let s3 = comb.calculate(&Matrix::new(r, c, &data));
-                    if !(s3.is_finite() && (s3 as f64 - want).abs() <= 1e-5 * want.abs().max(1e-3)) {
+                    if !ok(s3) {
                         return Some(("SimilarityCombiner::calculate".into(), "result is not the documented combination of the matrix".into(), format!("{comb:?} {r} x {c}: observed {s3} expected {want}")));
+                    }
+                    // a cache that has to hold more than 65 536 pairs: (A,B), (B,A), (A,B) on one cache
+                    if (r, c) == (300, 300) {
+                        let plain_ba = GroupSimilarity::new(comb, sim).calculate(&b, &a);
+                        let cached = GroupSimilarity::new(comb, CachedSimilarity::new(sim));
+                        let (c1, c2, c3) = (cached.calculate(&a, &b), cached.calculate(&b, &a), cached.calculate(&a, &b));
+                        if c1.to_bits() != s2.to_bits() || c2.to_bits() != plain_ba.to_bits() || c3.to_bits() != s2.to_bits() {
+                            return Some(("CachedSimilarity".into(), "caching adaptor changes the result".into(), format!("{comb:?} |A| = {r}, |B| = {c}: plain (A,B) {s2}, (B,A) {plain_ba}; one cache: {c1}, {c2}, {c3}")));
+                        }
                     }
                 }
                 None
@@ -891,10 +1004,51 @@ pub fn run(ctx: &mut Ctx) {
             ctx.validateds(9);
             match res {
                 Ok(None) => {}
-                Ok(Some((site, sig, det))) => ctx.violation(&site, &format!("[sets at the 16-bit size border] {sig}"), json!({"rows": r, "cols": c, "similarity": "[1/4, 1/2, 1, 0, 1/8, 3/4, 1/16][((7a + 3b) mod 61) mod 7] of the two term ids", "A": format!("ids 10..{}", 10 + r), "B": format!("the last {c} of ids 10..65550"), "difference": det})),
+                Ok(Some((site, sig, det))) => ctx.violation(&site, &format!("[sets at the 16-bit size border] {sig}"), json!({"rows": r, "cols": c, "similarity": "[1/4, 1/2, 1, 0, 1/8, 3/4, 1/16][((7a + 3b) mod 61) mod 7] of the two term ids; for (300,300): 2^-(1 + max(a mod 7, ((31a + 17b) mod 293) / 20))", "A": format!("ids 10..{}", 10 + r), "B": format!("the last {c} of ids 10..65550"), "difference": det})),
                 Err(p) => ctx.violation("HpoSet::similarity", "[sets at the 16-bit size border] panics", json!({"rows": r, "cols": c, "observed": p})),
             }
             ctx.sample(|| json!({"rows": r, "cols": c}));
         }
+        // matrices with more columns than a 15-bit index holds, handed to the combiners directly (no sets, no ontology)
+        for (r, c) in if thorough { vec![(1usize, 32_769usize), (2, 40_000)] } else { vec![(1, 32_769)] } {
+            if !ctx.take() {
+                continue;
+            }
+            ctx.state();
+            ctx.nontrivial();
+            ctx.transitions((r * c) as u64 * 3);
+            let res = guard(|| -> V {
+                let at = |i: usize, j: usize| by_id(10 + i as u32, 40_000 + j as u32);
+                let row_max: Vec<f64> = (0..r).map(|i| (0..c).map(|j| at(i, j) as f64).fold(f64::NEG_INFINITY, f64::max)).collect();
+                let col_max: Vec<f64> = (0..c).map(|j| (0..r).map(|i| at(i, j) as f64).fold(f64::NEG_INFINITY, f64::max)).collect();
+                let (sr, sc): (f64, f64) = (row_max.iter().sum(), col_max.iter().sum());
+                let data: Vec<f32> = (0..r).flat_map(|i| (0..c).map(move |j| (i, j))).map(|(i, j)| at(i, j)).collect();
+                // (every combiner scans the columns once, at a cost quadratic in their number: two of the three in the quick tier)
+                for comb in if thorough { &COMBINERS[..] } else { &[StandardCombiner::FunSimAvg, StandardCombiner::Bma][..] } {
+                    let comb = *comb;
+                    let want = match comb {
+                        StandardCombiner::FunSimAvg => (sr / r as f64 + sc / c as f64) / 2.0,
+                        StandardCombiner::FunSimMax => (sr / r as f64).max(sc / c as f64),
+                        StandardCombiner::Bma => (sr + sc) / (r + c) as f64,
+                    };
+                    let alt = divide_first(comb, &row_max, &col_max);
+                    let s3 = comb.calculate(&Matrix::new(r, c, &data));
+                    if !(s3.is_finite() && ((s3 as f64 - want).abs() <= 1e-5 * want.abs().max(1e-3) || (s3 - alt).abs() <= 4.0 * f32::EPSILON * alt.abs())) {
+                        return Some(("SimilarityCombiner::calculate".into(), "result is not the documented combination of the matrix".into(), format!("{comb:?} {r} x {c}: observed {s3} expected {want}")));
+                    }
+                }
+                None
+            });
+            ctx.execs(if thorough { 3 } else { 2 });
+            ctx.validateds(if thorough { 3 } else { 2 });
+            match res {
+                Ok(None) => {}
+                Ok(Some((site, sig, det))) => ctx.violation(&site, &format!("[wide matrix] {sig}"), json!({"rows": r, "cols": c, "entries": "[1/4, 1/2, 1, 0, 1/8, 3/4, 1/16][((7(10+i) + 3(40000+j)) mod 61) mod 7]", "difference": det})),
+                Err(p) => ctx.violation("SimilarityCombiner::calculate", "[wide matrix] panics", json!({"rows": r, "cols": c, "observed": p})),
+            }
+            ctx.sample(|| json!({"rows": r, "cols": c, "entry_point": "SimilarityCombiner::calculate(&Matrix)"}));
+        }
     }
+    let n = TWIN_TERM_FROM_OTHER_INSTANCE.with(|c| c.get());
+    ctx.bump("twin_comparisons_in_which_the_callback_got_a_term_of_the_first_instance", n);
 }
